@@ -300,6 +300,34 @@ def base_scenario(r, seed, algo, *, parts=None, dmax=3, n=None, T=None, real_pro
     return sc
 
 
+def within_c01_provisos(sc):
+    """C01's provisos recomputed from the scenario itself (shrinkers change K, d, n, h_max; the generator's meta flag does
+    not follow them): T <= declared budget; SOO's and StoSOO's depth caps large enough to hold the budget."""
+    if "algo" not in sc or sc["algo"] == "RAW":
+        return True
+    p = sc.get("params") or {}
+    algo = sc["algo"]
+    n = p.get("n", p.get("rounds"))
+    if n is not None and sc.get("rounds", 0) > n:
+        return False
+    T = sc.get("rounds", 0)
+    if algo == "SOO":
+        # enough evaluable cells under the cap for the T rounds driven (DESIGN 5.1)
+        K = arity(sc["partition"], len(sc["domain"]))
+        hm = p.get("h_max", 100)
+        tot, h = 0, 0
+        while h <= hm and tot < T:
+            tot += K ** h
+            h += 1
+        return tot >= T
+    if algo == "StoSOO":
+        # no cell of depth h_max can have been evaluated k times within T rounds
+        k = p.get("k")
+        kk = k if k is not None else math.ceil(n / (math.log(n) ** 3))
+        return (p.get("h_max", 100) + 1) * kk > T
+    return True
+
+
 def zooming_deep(r, sc, seed):
     """Zooming driven down one chain of cells to (and past) float resolution: rho close to 1, nu large enough for the
     confidence radius to meet nu*rho^depth at every pull, and rewards riding on a constant that dwarfs the index of a
